@@ -348,6 +348,14 @@ TokensSpellingFrom(toks, prev) ==
               s |-> IF Len(toks) = 1 THEN h.s ELSE h.s \o <<SP>> \o t.s]
 TokensSpelling(toks) == TokensSpellingFrom(toks, NoTok)
 
+\* The error display (source line + caret) joins the plain spelling of every token: no dot form there.
+RECURSIVE TokensSpellingPlain(_)
+TokensSpellingPlain(toks) ==
+    IF toks = <<>> THEN [ok |-> TRUE, s |-> <<>>]
+    ELSE LET h == TokenSpelling(toks[1])
+             t == TokensSpellingPlain(Tail(toks))
+         IN  [ok |-> h.ok /\ t.ok, s |-> IF Len(toks) = 1 THEN h.s ELSE h.s \o <<SP>> \o t.s]
+
 \* One LIST line: "<number> <tokens joined by blanks>\n"
 ListLine(key, toks) ==
     LET t == TokensSpelling(toks) IN [ok |-> t.ok, s |-> key \o <<SP>> \o t.s \o <<LF>>]
